@@ -573,6 +573,31 @@ func (e *env) runVAPI(c *kit.Case, w *world, tg target) {
 		}
 	}
 
+	// 5b. the validator's own VALID item together with an altered copy of it (same validator, same slot,
+	// in either order): whatever is remembered from verifying the first must not vouch for the second
+	// (a content-altered copy keeps the valid item's signature bytes).
+	if tg.Multi && !tg.Ignored {
+		single := append([]*alt(nil), alts...)
+		picked := 0
+		for _, pi := range rng.Perm(len(single)) {
+			a := single[pi]
+			if a.MustAdmit || len(a.Items) != 1 || len(a.Class) < 4 || a.Class[:4] != "leaf" {
+				continue
+			}
+			items := []any{vapiForm(k, v, deepCopy(base)), deepCopy(a.Items[0])}
+			ai := 1
+			if rng.Intn(3) == 0 {
+				items[0], items[1] = items[1], items[0]
+				ai = 0
+			}
+			alts = append(alts, &alt{Class: "batch:own-valid-item-plus-altered-copy:" + a.Class, Detail: a.Detail, Items: items, AltIdx: ai, Sub: &submission{agreed: defAgreed, proposer: a.Sub.proposer}})
+			picked++
+			if picked >= 8 {
+				break
+			}
+		}
+	}
+
 	// 6. coordinated multi-item alterations: several validators with a duty in the same slot (and,
 	// where the object allows it, the same signing root) whose individual defects cancel in any
 	// aggregate / sum check: signatures swapped or rotated between validators, key shares shifted
